@@ -79,6 +79,28 @@ def unit_parse(R, rng, tier):
         cases.append((L.pstr(c), "None" if r is None else "(Some %s)" % L.lst([L.pstr(x) for x in sorted(r)], "pstr")))
         R.case(("parse", c), nontrivial=r is not None, sample={"comment": c, "parsed": None if r is None else sorted(r)})
         R.count("parse:" + ("none" if r is None else "bare" if not r else "specific"))
+    # every registered test, by ID and by name (plugin names and blacklist names, whatever their capitalisation):
+    # a comment naming one test resolves to exactly that test's ID
+    from bandit.core import extension_loader
+    ext = extension_loader.MANAGER
+    reg = {p.plugin._test_id: p.name for p in ext.plugins}
+    for bid, info in ext.blacklist_by_id.items():
+        reg[bid] = info["name"].replace("-", "_") if bid not in reg else reg[bid]
+    for tid, name in sorted(reg.items()):
+        for c, want in (("# nosec %s" % tid, {tid}), ("# nosec %s" % name, {tid}), ("#nosec: %s, B101" % name, {tid, "B101"}),
+                        ("# nosec %s" % name.upper(), None if name.upper() != name else {tid})):
+            if c in seen:
+                continue
+            seen.add(c)
+            srcs.append(c)
+            r = m._parse_nosec_comment(c)
+            cases.append((L.pstr(c), "None" if r is None else "(Some %s)" % L.lst([L.pstr(x) for x in sorted(r)], "pstr")))
+            R.case(("parse", c), nontrivial=True, sample={"comment": c, "parsed": None if r is None else sorted(r)})
+            R.count("parse:registered-name-or-id")
+            if want is not None and (r is None or set(r) != want):
+                R.violations.append({"what": "a nosec comment naming %s resolves to %s instead of exactly %s" % (
+                    c.split("nosec", 1)[1].strip(": "), None if r is None else sorted(r), sorted(want)), "input": {"comment": c},
+                    "observed": None if r is None else sorted(r), "signature": None})
     imports = "From Bandit Require Import Regex.Regex Manager.Registry Manager.NosecParse Gen.Regexes Gen.Registry Gen.Blacklists.\n"
     mm, br = core.unit_corr(imports, "parse_nosec cs_nosec_space cs_nosec_token registry blacklist builtin_ids", "pstr",
                             "option (list pstr)", "oeq", cases, extra_defs=SORT_DEFS, label="c02p")
